@@ -106,6 +106,7 @@ static int32_t cb_accept(qb_ipcs_connection_t *c, uid_t uid, gid_t gid)
 {
 	if (find_conn(c)) sviol("ipcs:accept-on-live-connection", c, "accept for %p", (void *)c);
 	int rc = 0; uid_t au = 0; gid_t ag = 0; mode_t am = 0; int use = 0;
+	if (cfg.accept_delay_ms > 0) usleep((useconds_t)cfg.accept_delay_ms * 1000);
 	if (cfg.accept_policy == 1) rc = bed_accept_decision(uid, gid, &au, &ag, &am, &use);
 	else if (cfg.accept_policy == 2 && vp_chance(&srng, 1, 6)) rc = -EACCES;
 	char pidtxt[32] = ""; { struct qb_ipcs_connection_stats cst; if (qb_ipcs_connection_stats_get(c, &cst, 0) == 0) snprintf(pidtxt, sizeof pidtxt, "%d", (int)cst.client_pid); }
@@ -236,7 +237,17 @@ static int count_shm(void)
 	char pre[64]; snprintf(pre, sizeof pre, "qb-%d-", (int)getpid());
 	int n = 0; DIR *d = opendir("/dev/shm"); struct dirent *e; while (d && (e = readdir(d))) if (strncmp(e->d_name, pre, strlen(pre)) == 0) n++; if (d) closedir(d); return n;
 }
-static void final_stop(void *data) { (void)data; qb_loop_stop(loop); }
+/* after qb_ipcs_destroy: keep the loop turning until every connection is gone (closed-callback retries and deferred
+ * disconnects are jobs of the loop), bounded by a number of turns, not by the clock */
+static int final_turns;
+static void final_stop(void *data)
+{
+	(void)data; int alive = 0;
+	for (struct sconn *s = conns; s; s = s->next) if (!s->dead) alive = 1;
+	if (!alive || ++final_turns > 3000) { qb_loop_stop(loop); return; }
+	if (final_turns > 50) usleep(200);
+	qb_loop_job_add(loop, QB_LOOP_LOW, NULL, final_stop);
+}
 static int32_t on_term(int32_t sig, void *data)
 {
 	(void)sig; (void)data;
@@ -246,7 +257,7 @@ static int32_t on_term(int32_t sig, void *data)
 	/* references taken on behalf of clients (OP_REF) that they never gave back */
 	for (struct sconn *s2 = conns; s2; s2 = s2->next) while (!s2->dead && s2->client_refs > 0) { s2->client_refs--; s2->app_refs--; qb_ipcs_connection_unref(s2->c); }
 	if (!svc_destroyed) { svc_destroyed = 1; qb_ipcs_destroy(svc); }
-	qb_loop_timer_handle th; qb_loop_timer_add(loop, QB_LOOP_LOW, 30 * 1000000ULL, NULL, final_stop, &th);
+	qb_loop_job_add(loop, QB_LOOP_LOW, NULL, final_stop);
 	return 0;
 }
 static int32_t on_usr1(int32_t sig, void *data)
